@@ -139,6 +139,18 @@ class Prov:
                         if n_ < len(st.rv.ops):
                             push_operand(f, st.rv.ops[n_])
                     return
+            # closure upvar sensitivity: `(*_1).N` / `_1.N` in a closure body follows captured operand N only
+            if p.local == 1 and "{closure" in f.id and follow_closures:
+                fp = [pr for pr in p.proj if pr[0] == "field"]
+                if fp and fp[0][2].startswith("closure:") and fp[0][1].isdigit():
+                    n_ = int(fp[0][1])
+                    sites = self.closure_sites().get(f.id, ())
+                    if sites:
+                        sl.locals.add((f.id, 1))
+                        for parent, st in sites:
+                            if n_ < len(st.rv.ops):
+                                push_operand(parent, st.rv.ops[n_])
+                        return
             push_local(f, p.local)
 
         def push_operand(f, o):
